@@ -22,6 +22,7 @@ type op struct {
 	Dir int    `json:"dir"`           // bridge: sending endpoint (0: conn0->conn1); dpipe: endpoint index
 	N   int    `json:"n,omitempty"`   // length / count
 	Off int    `json:"off,omitempty"` // Drop offset
+	DLus int   `json:"dlUs,omitempty"` // bridge write: a write deadline this many microseconds ahead is set first (it may pass while the write is paced)
 }
 
 type scenario struct {
@@ -69,7 +70,7 @@ func gen(r *harn.Rng, tier string) interface{} {
 		x := r.Intn(100)
 		switch {
 		case x < 55:
-			sc.Ops = append(sc.Ops, op{K: "w", Dir: d, N: r.Pick(4, 4, 5, 16, 100, 1200, 4, 16, 100, 0)})
+			sc.Ops = append(sc.Ops, op{K: "w", Dir: d, N: r.Pick(4, 4, 5, 16, 100, 1200, 4, 16, 100, 0), DLus: r.Pick(0, 0, 0, 0, 0, 0, 1, 10, 50, 100)})
 			switch {
 			case pendDrop[d] > 0:
 				pendDrop[d]--
@@ -248,9 +249,19 @@ func runBridge(env *simrt.Env, sc *scenario) {
 			b := msg(nextID, o.N)
 			nextID++
 			cp := append([]byte(nil), b...)
+			if o.DLus > 0 {
+				_ = conns[d].SetWriteDeadline(env.Now().Add(time.Duration(o.DLus) * time.Microsecond))
+			}
 			n, err := conns[d].Write(cp)
+			if o.DLus > 0 {
+				_ = conns[d].SetWriteDeadline(time.Time{})
+			}
 			for j := range cp {
 				cp[j] = 0xEE
+			}
+			if o.DLus > 0 && err != nil && n == 0 {
+				env.Probe("write-timed-out")
+				continue // a write that reports a timeout and zero bytes has written nothing
 			}
 			if err != nil || n != len(b) {
 				env.Fail("C18/bridge-write-failed", "op %d: Write on endpoint %d = (%d, %v)", i, d, n, err)
